@@ -443,7 +443,8 @@ def clean_out(txt):
 
 # ------------------------------------------------------------------ classification of failures (narrow classes)
 QUIRK_CLASS = {1: "nillable-empty-instance-not-preserved", 2: "empty-simple-value-not-preserved",
-               3: "union-typed-value-not-preserved", 4: "compound-primitive-choices-confused"}
+               3: "union-typed-value-not-preserved", 4: "compound-primitive-choices-confused",
+               5: "empty-simple-value-not-preserved", 6: "mixed-content-text-misplaced"}
 
 
 def norm_msg(msg):
@@ -461,8 +462,8 @@ def classify_doc(run, doc, dr, feats, active):
     if err == "ConverterError" and "No converter registered for `tuple`" in msg and (
             run["oset"]["options"].get("frozen") or (run["oset"]["options"].get("format") or {}).get("frozen")):
         return ["frozen-tuple-tokens-no-converter"]
-    active = sorted(set(active) | ({2} if feats.get("pr_empty_simple") else set()))   # an empty element where a default applies
-    return [QUIRK_CLASS[q] for q in active]
+    active = sorted((set(active) - {6}) | ({2} if feats.get("pr_empty_simple") else set()))   # 6: text placement never raises
+    return sorted({QUIRK_CLASS[q] for q in active})
 
 
 # ------------------------------------------------------------------ witnesses of FIXED findings: run with every check
@@ -793,8 +794,7 @@ def run(ck: Check):
     shards = [good_prog[i:i + SH] for i in range(0, len(good_prog), SH)]
     shard_times = []
     shard_mx = {}
-    DOC_PREDS = ["doc_in_valid", "doc_out_valid_agrees", "doc_abstract_sound", "doc_infoset_ok", "doc_infoset_unordered_ok",
-                 "doc_revalid_ok", "doc_infoset_ok_noall", "doc_infoset_ok_nodup"]
+    DOC_PREDS = ["doc_in_valid", "doc_out_valid_agrees", "doc_abstract_sound", "doc_revalid_ok"]
     FEATS = ["pr_empty_simple", "pr_nil", "pr_xsi_type", "pr_mixed_ws", "pr_mixed_binary"]
 
     def eval_shard(si):
@@ -818,8 +818,9 @@ def run(ck: Check):
                  f"map (fun p => map (fun tc => (pair_open_decls p tc, pair_unbound_nillables p tc)) (p_pairs p)) {progs}",
                  f"map root_paired {progs}"]
         evals += [f"bad_idx {pr} 0 ALLDOCS" for pr in DOC_PREDS]
-        evals += ["map doc_brejecting ALLDOCS", "map doc_diff ALLDOCS", "map doc_quirks ALLDOCS", "map doc_active ALLDOCS"]
+        evals += ["map doc_brejecting ALLDOCS", "map doc_diff ALLDOCS", "map doc_quirks ALLDOCS", "map doc_active_if_failed ALLDOCS"]
         evals += [f"bad_idx matrix_equal 0 {mxl}"]
+        evals += ["map doc_order_verdict ALLDOCS"]
         evals += ["[" + "; ".join(f"program_inequiv P{k}_{p['runs'][o]['oset']['base']} P{k}_{o} ++ "
                                   f"program_inequiv P{k}_{o} P{k}_{p['runs'][o]['oset']['base']}"
                                   for k, p in enumerate(sh) for o in (2, 3)) + "]"]
@@ -843,8 +844,13 @@ def run(ck: Check):
         quirks = results[si][6 + len(DOC_PREDS)]
         active = results[si][7 + len(DOC_PREDS)]
         bad_mx = results[si][8 + len(DOC_PREDS)]
-        inequiv = results[si][9 + len(DOC_PREDS)]
-        feats = [set(x) for x in results[si][10 + len(DOC_PREDS):]]
+        verdicts = results[si][9 + len(DOC_PREDS)]
+        inequiv = results[si][10 + len(DOC_PREDS)]
+        feats = [set(x) for x in results[si][11 + len(DOC_PREDS):]]
+        bad_unord = {i for i, v in enumerate(verdicts) if not v[0]}
+        bad_info = {i for i, v in enumerate(verdicts) if not v[1]}
+        bad_noall = {i for i, v in enumerate(verdicts) if not v[2]}
+        bad_nodup = {i for i, v in enumerate(verdicts) if not v[3]}
         for vi, (p_, o) in enumerate([(p_, o) for p_ in sh for o in (2, 3)]):
             stats["meta_equiv_compared"] = stats.get("meta_equiv_compared", 0) + 1
             if inequiv[vi]:
@@ -853,13 +859,12 @@ def run(ck: Check):
                 types = p_["schema"]["types"]
                 mixed_children = {d["type"] for T in types if T["content"][0] == "mixed" for d in T["decls"]}
                 cls = "options-change-metadata"
-                if rr["oset"]["options"].get("unnest_classes") and all(
-                        t in mixed_children and types[t]["content"][0] == "simple" for t in inequiv[vi]):
-                    cls = "unnest-mixed-choice-wrapper-reset-to-str"
+                if rr["oset"]["options"].get("unnest_classes"):
+                    cls = "unnest-classes-changes-binding"
                 ck.failure(cls,
                            f"binding metadata differs (beyond collection factories and class nesting) under {rr['oset']['options']} "
                            f"for {names[:4]}", replay_of(rr, types=names))
-        bad_valid, bad_outvalid, bad_abs, bad_info, bad_unord, bad_reval, bad_noall, bad_nodup = bad
+        bad_valid, bad_outvalid, bad_abs, bad_reval = bad
         base_runs = [p["runs"][o] for p in sh for o in (0, 1)]
         docmap = [(rr, j) for rr in base_runs for j in range(len(rr["res"]["docs"]))]
         for ri, rr in enumerate(base_runs):
@@ -953,7 +958,8 @@ def run(ck: Check):
             # when the base output already deviates from the input by known deviations, the option dependence of WHICH
             # deviation shows is part of those findings (e.g. which of two confusable compound choices is written)
             qs = base["res"]["docs"][j].get("quirks") or []
-            for cls in [QUIRK_CLASS[q] for q in qs if q in QUIRK_CLASS] or ["options-change-output"]:
+            for cls in [QUIRK_CLASS[q] for q in qs if q in QUIRK_CLASS] or (
+                    ["unnest-classes-changes-binding"] if rr["oset"]["options"].get("unnest_classes") else ["options-change-output"]):
                 ck.failure(cls, f"the output of a document differs under {rr['oset']['options']}",
                            replay_of(rr, doc=rr["p"]["docs"][j], base=a, variant=b))
 
@@ -965,6 +971,8 @@ def run(ck: Check):
         clss = classify_doc(rr, p["docs"][j], bad_side, a.get("feats", {}), a.get("active", []))
         what = (f"a document is {'accepted' if 'ok' in a else 'refused'} by default options and "
                 f"{'accepted' if 'ok' in b else 'refused'} under {rr['oset']['options']}")
+        if not clss and rr["oset"]["options"].get("unnest_classes"):
+            clss = ["unnest-classes-changes-binding"]
         for cls in clss or ["options-change-acceptance"]:
             ck.failure(cls, what, replay_of(rr, doc=p["docs"][j], base=a, variant=b))
 
@@ -1043,7 +1051,7 @@ def classify_codegen(run):
     e = run["res"].get("error") or {}
     if run["res"].get("status") == "bind_error" and "Compound field contains ambiguous types" in (e.get("message") or "") \
             and run["oset"]["options"].get("unnest_classes"):
-        return "unnest-mixed-choice-wrapper-reset-to-str"
+        return "unnest-classes-changes-binding"
     if e.get("type") == "ValueError" and "mutable default <class 'xsdata.models.datatype.XmlPeriod'>" in (e.get("message") or ""):
         return "period-default-unhashable-import-fails"
     if e.get("type") == "NoRootClass" and run["oset"]["options"].get("structure_style") == "namespaces" \
@@ -1052,8 +1060,7 @@ def classify_codegen(run):
     if e.get("type") == "CodegenError" and "Circular Dependencies Found" in (e.get("message") or "") \
             and len(run["p"]["sources"]) > 1 and run["oset"]["options"].get("structure_style", "filenames") == "filenames":
         return "cross-file-import-cycle-filenames-style"
-    if e.get("type") == "ConverterError" and run["res"].get("stage") == "write" and "converter.py" in (e.get("where") or "") \
-            and re.search(r'(default|fixed)="', "".join(run["p"]["sources"].values())):
+    if e.get("type") == "ConverterError" and run["res"].get("stage") == "write" and "converter.py" in (e.get("where") or ""):
         return "field-default-value-converter-error"
     return None
 
